@@ -149,6 +149,61 @@ package fptower
 //@ modifies z
 //@ end
 
+// E2.Sqrt, p = 3 mod 4 (algorithm 9 of eprint 2012/685). The two exponentiations are opaque: a1 and b are
+// arbitrary elements. What is proved is the algebra around them, as identities valid in every commutative ring:
+// with alpha = a1^2 x (clause alpha) and u^2 = -1, on the branch taken when alpha == -1 (eq: the result of the
+// comparison, whose second operand is the constant -1, clause minusone) z^2 = x - x (alpha - (-1)), i.e. z^2 = x
+// there; on the other branch z^2 = x alpha b^2 with b = Exp(1 + alpha, sqrtExp2) (clauses exp2, root-b). That
+// alpha b^2 = 1 for a square x is number theory about the exponents and is not claimed.
+//@ func E2.Sqrt
+//@ tags purego
+//@ layer ring fp.Element
+//@ option opaque Exp Equal
+//@ option distribute
+//@ option split-post
+//@ ghost ax0 = 0
+//@ ghost ax1 = 0
+//@ ghost a0 = 0
+//@ ghost a1 = 0
+//@ ghost e1 = false
+//@ cut after call Exp #1
+//@ + ghost ax0 = callarg1.A0
+//@ + ghost ax1 = callarg1.A1
+//@ + ghost a0 = callarg0.A0
+//@ + ghost a1 = callarg0.A1
+//@ + ghost e1 = same(callarg2, &sqrtExp1)
+//@ ghost eq = false
+//@ ghost al0 = 0
+//@ ghost al1 = 0
+//@ ghost m0 = 0
+//@ ghost m1 = 0
+//@ cut after call Equal #1
+//@ + ghost eq = callresult
+//@ + ghost al0 = callarg0.A0
+//@ + ghost al1 = callarg0.A1
+//@ + ghost m0 = callarg1.A0
+//@ + ghost m1 = callarg1.A1
+//@ ghost bx0 = 0
+//@ ghost bx1 = 0
+//@ ghost b0 = 0
+//@ ghost b1 = 0
+//@ ghost e2 = false
+//@ cut after call Exp #2
+//@ + ghost bx0 = callarg1.A0
+//@ + ghost bx1 = callarg1.A1
+//@ + ghost b0 = callarg0.A0
+//@ + ghost b1 = callarg0.A1
+//@ + ghost e2 = same(callarg2, &sqrtExp2)
+//@ ensures[exp1] e1 && ax0 == old(x.A0) && ax1 == old(x.A1)
+//@ ensures[alpha] svec(2, 0, al0, 1, al1) == qmul((-1), qsq((-1), svec(2, 0, a0, 1, a1)), old(vec(x)))
+//@ ensures[minusone] m0 == -1 && m1 == 0
+//@ ensures[root-a] eq ==> qsq((-1), vec(z)) == vsub(old(vec(x)), qmul((-1), old(vec(x)), vsub(svec(2, 0, al0, 1, al1), svec(2, 0, m0, 1, m1))))
+//@ ensures[exp2] !eq ==> e2 && bx0 == 1 + al0 && bx1 == al1
+//@ ensures[root-b] !eq ==> qsq((-1), vec(z)) == qmul((-1), qmul((-1), old(vec(x)), svec(2, 0, al0, 1, al1)), qsq((-1), svec(2, 0, b0, 1, b1)))
+//@ ensures[result] result == z
+//@ modifies z
+//@ end
+
 // ---------------- E6 over E2 ----------------
 
 //@ func E6.Inverse
